@@ -26,7 +26,7 @@ const QUALS: [&str; 4] = ["RETAIN", "NON_RETAIN", "", "PERSISTENT"];
 
 #[derive(Clone, Debug)]
 pub struct VarSpec {
-    pub scope: u8, // 0 global, 1 program Main (task), 2 program Bg (background)
+    pub scope: u8, // 0 global, 1 program Main (task), 2 program Bg (background); 11 / 12: not a variable but the RETAIN / NON_RETAIN qualifier of the program instance P1 / P2
     pub qual: usize,
     pub ty: usize,
     pub name: String,
@@ -92,7 +92,9 @@ pub fn program_text(vars: &[VarSpec]) -> String {
         }
     }
     s += "VAR_GLOBAL\n  trip : BOOL;\n  zero : DINT;\n  ev : BOOL;\n  gfb : Acc;\nEND_VAR\n";
-    s += "TASK T1 (INTERVAL := T#1ms, PRIORITY := 1);\nTASK T2 (INTERVAL := T#3ms, PRIORITY := 2);\nTASK TE (SINGLE := ev, PRIORITY := 0);\nPROGRAM P1 WITH T1 : Main;\nPROGRAM P3 WITH T2 : Slow;\nPROGRAM P4 WITH TE : OnEv;\nPROGRAM P2 : Bg;\nEND_CONFIGURATION\n";
+    s += "TASK T1 (INTERVAL := T#1ms, PRIORITY := 1);\nTASK T2 (INTERVAL := T#3ms, PRIORITY := 2);\nTASK TE (SINGLE := ev, PRIORITY := 0);\n";
+    let iq = |scope: u8| vars.iter().find(|v| v.scope == scope).map(|v| QUALS[v.qual]).filter(|q| *q == "RETAIN" || *q == "NON_RETAIN").map(|q| format!("{q} ")).unwrap_or_default();
+    s += &format!("PROGRAM {}P1 WITH T1 : Main;\nPROGRAM P3 WITH T2 : Slow;\nPROGRAM P4 WITH TE : OnEv;\nPROGRAM {}P2 : Bg;\nEND_CONFIGURATION\n", iq(11), iq(12));
     for (scope, pname) in [(1u8, "Main"), (2u8, "Bg")] {
         s += &format!("PROGRAM {pname}\nVAR_EXTERNAL\n  trip : BOOL;\n  zero : DINT;\n  ev : BOOL;\n  gfb : Acc;\n");
         if scope == 1 {
@@ -162,7 +164,10 @@ fn retained_kind(v: &Value) -> bool {
 /// Copy exactly the retained variables (per the model) from `from` into the fresh shadow `to`.
 fn inject_retained(vars: &[VarSpec], from: &TestHarness, to: &mut TestHarness) -> u64 {
     let mut n = 0;
-    for v in vars.iter().filter(|v| QUALS[v.qual] == "RETAIN" || QUALS[v.qual] == "PERSISTENT") {
+    // a variable is retained when its own block says RETAIN / PERSISTENT, or when its block says nothing and the program
+    // instance is qualified RETAIN in the configuration (an explicit NON_RETAIN block always wins)
+    let instance_retain = |scope: u8| vars.iter().any(|q| q.scope == scope + 10 && QUALS[q.qual] == "RETAIN");
+    for v in vars.iter().filter(|v| v.scope <= 2 && (QUALS[v.qual] == "RETAIN" || QUALS[v.qual] == "PERSISTENT" || (QUALS[v.qual].is_empty() && v.scope >= 1 && instance_retain(v.scope)))) {
         match v.scope {
             0 => {
                 if let Some(val) = from.runtime().storage().get_global(&v.name).cloned() {
@@ -191,6 +196,21 @@ fn inject_retained(vars: &[VarSpec], from: &TestHarness, to: &mut TestHarness) -
             }
         }
     }
+    // helper variables of a program whose instance is qualified RETAIN (cnt, ...) are declared without a qualifier too
+    for (scope, prog) in [(1u8, "P1"), (2u8, "P2")] {
+        if !instance_retain(scope) {
+            continue;
+        }
+        let (Some(Value::Instance(src_id)), Some(Value::Instance(dst_id))) = (from.runtime().storage().get_global(prog).cloned(), to.runtime().storage().get_global(prog).cloned()) else { continue };
+        let helper: Vec<(String, Value)> = from.runtime().storage().get_instance(src_id).map(|i| i.variables.iter().map(|(k, v)| (k.to_string(), v.clone())).collect()).unwrap_or_default();
+        for (k, val) in helper {
+            if vars.iter().any(|v| v.scope <= 2 && v.name == k) || !retained_kind(&val) {
+                continue; // generated variables were handled above according to their own block
+            }
+            to.runtime_mut().storage_mut().set_instance_var(dst_id, k.as_str(), val);
+            n += 1;
+        }
+    }
     n
 }
 
@@ -208,9 +228,9 @@ fn compare(r: &Rt, s: &Rt, vars: &[VarSpec], when: &str) -> Result<u64, (String,
         // classify by the variable's scope / qualifier
         let name = d.split(' ').next().unwrap_or("").trim_start_matches('~').to_string();
         let leaf = name.rsplit('.').next().unwrap_or("").split('[').next().unwrap_or("").to_string();
-        let spec = vars.iter().find(|v| name.split(|c| c == '.' || c == '[').any(|seg| seg == v.name));
+        let spec = vars.iter().filter(|v| v.scope <= 2).find(|v| name.split(|c| c == '.' || c == '[').any(|seg| seg == v.name));
         let class = match spec {
-            Some(v) => format!("{}|{}|{}", ["global", "program", "program"][v.scope as usize], if QUALS[v.qual].is_empty() { "unqualified" } else { QUALS[v.qual] }, TYPES[v.ty]),
+            Some(v) => format!("{}|{}|{}", ["global", "program", "program"][(v.scope as usize).min(2)], if QUALS[v.qual].is_empty() { "unqualified" } else { QUALS[v.qual] }, TYPES[v.ty]),
             None => format!("other|{leaf}"),
         };
         return Err((format!("state|{class}"), format!("{when}: runtime vs model: {d}")));
@@ -310,7 +330,14 @@ pub fn run_history(vars: &[VarSpec], ops: &[Op], dir: &std::path::Path) -> Resul
 
 fn gen_vars(rng: &mut Rng) -> Vec<VarSpec> {
     let n = 3 + rng.usize(8);
-    (0..n).map(|i| VarSpec { scope: rng.below(3) as u8, qual: rng.usize(4), ty: rng.usize(TYPES.len()), name: format!("v{i}") }).collect()
+    let mut v: Vec<VarSpec> = (0..n).map(|i| VarSpec { scope: rng.below(3) as u8, qual: rng.usize(4), ty: rng.usize(TYPES.len()), name: format!("v{i}") }).collect();
+    // a third of the configurations qualify a program instance (PROGRAM RETAIN P1 ... / PROGRAM NON_RETAIN P2 ...)
+    for scope in [11u8, 12] {
+        if rng.chance(1, 3) {
+            v.push(VarSpec { scope, qual: rng.usize(2), ty: 0, name: format!("__instance_qualifier_{scope}") });
+        }
+    }
+    v
 }
 
 fn gen_ops(rng: &mut Rng) -> Vec<Op> {
